@@ -19,7 +19,8 @@ from pysrc import Fn, World, Untranslatable, _methods
 from pysrc_act import TrAct
 
 LEAN_TYPE = pysrc.LEAN_TYPE
-LEAN_TYPE.update({"Y": "Load.Y", "YList": "List Load.Y", "Loader": "Unit", "NatList": "List Nat"})
+LEAN_TYPE.update({"Y": "Load.Y", "YList": "List Load.Y", "Loader": "Unit", "NatList": "List Nat", "YMap": "List (Load.Y × Load.Y)",
+                  "TopoL": "List (List Int)", "IntList": "List Int"})
 
 
 class TrLoad(TrAct):
@@ -35,6 +36,8 @@ class TrLoad(TrAct):
                 return "subnets", "NatList"
             if e.attr == "services":
                 return "services", "YList"
+            if e.attr == "topology":
+                return "topology", "TopoL"
         if isinstance(e, ast.Subscript):
             o, t = self.expr(e.value, env)
             if t == "NatList":
@@ -76,6 +79,11 @@ class TrLoad(TrAct):
             return f"(PyRt.{fn} {a} {k})", "Bool"
         if ta == "Y" and tb == "Y" and isinstance(op, ast.Eq):
             return f"({a}.pyEq {b})", "Bool"
+        if isinstance(op, (ast.In, ast.NotIn)) and ta == "Str" and tb == "YMap":
+            s_ = f"(getKey {b} {a}).isSome"
+            return (f"({s_})" if isinstance(op, ast.In) else f"(!{s_})"), "Bool"
+        if ta == "Int" and tb == "Num" and isinstance(op, ast.Eq):
+            return f"({a} == ({b} : Int))", "Bool"
         if isinstance(op, (ast.In, ast.NotIn)) and ta == "Y" and tb == "YList":
             s = f"(pyIn {a} {b})"
             return (s if isinstance(op, ast.In) else f"(!{s})"), "Bool"
@@ -105,6 +113,21 @@ class TrLoad(TrAct):
                 if ast.unparse(a) in getattr(self, "known_lists", set()):
                     return f"(listOf {o}).length", "Nat"
                 self.err(e, "len of a YAML value of unknown type")
+        if text == "str" and len(e.args) == 1 and isinstance(e.args[0], ast.Tuple) and len(e.args[0].elts) == 2:
+            a, ta = self.expr(e.args[0].elts[0], env)
+            b, tb = self.expr(e.args[0].elts[1], env)
+            if ta == "Nat" and tb == "Nat":
+                return f"(showPair {a} {b})", "Str"                        # Python's str((a, b))
+        if text == "enumerate" and len(e.args) == 1:
+            o, t = self.expr(e.args[0], env)
+            if t == "TopoL":
+                return f"(PyRt.enumerate {o})", "List:Nat*IntList"
+            if t == "IntList":
+                return f"(PyRt.enumerate {o})", "List:Nat*Int"
+        if isinstance(f, ast.Attribute) and f.attr == "values" and not e.args:
+            o, t = self.expr(f.value, env)
+            if t == "YMap":
+                return f"({o}.map (·.2))", "YList"
         if text == "isinstance" and len(e.args) == 2 and isinstance(e.args[1], ast.Name):
             o, t = self.expr(e.args[0], env)
             if t == "Y":
@@ -294,6 +317,8 @@ def translate_loader():
     emit(mk("_is_valid_host_address", ["subnets"], ["NatList"], [("subnet_ID", "Y"), ("host_ID", "Y")]))
     emit(mk("_validate_scan_cost", [], [], [("scan_name", "Unit"), ("scan_cost", "Y")]))
     emit(mk("_is_valid_firewall_setting", ["services"], ["YList"], [("f", "Y")]))
+    emit(mk("_contains_all_required_firewalls", ["topology"], ["TopoL"], [("firewall", "YMap")]))
+    emit(mk("_validate_firewall", ["topology", "services"], ["TopoL", "YList"], [("firewall", "YMap")]))
     fn = mk("step_limit_ok", [], [], [("step_limit", "Y")])
     # the test sits inside _parse_step_limit; its only variable is the value read from the file
     node = meth.get("_parse_step_limit")
